@@ -3,11 +3,11 @@ from __future__ import annotations
 
 import ast
 
-from sa.astx import NotConst, call_attr, call_name, const_eval, dotted, src, walk_local
+from sa.astx import NotConst, call_attr, call_name, const_eval, src, walk_local
 from sa.domains import replace_chain
 from sa.selftest import Mutant, Silent
 from sa.source import methods
-from sa.props._lib_j import (catching_handler, edge_asserts, local_defs, no_exc, node_calls, normal_exits, params, resolve, rsrc)
+from sa.props._lib_j import catching_handler, edge_asserts, local_defs, no_exc, node_calls, params, resolve, rsrc
 
 PROPERTY = "C51"
 DB = "persisted/dirdbm.py"
@@ -142,7 +142,6 @@ def check(ctx):
     fi = ctx.func(DB, "DirDBM.__init__")
     gi = ctx.cfg(fi)
     qi = Q + ".__init__"
-    di = local_defs(fi)
     loops = [n for n in gi.nodes if n.kind == "for" and gi.reachable(n.id)]
     handled = {}
     for ln in loops:
@@ -169,7 +168,6 @@ def check(ctx):
             ctx.check(ok, "recovery/new-deleted", where, "an interrupted new entry (*.new, possibly partial) is not unconditionally deleted")
         elif ext == ".rpl":
             # target name = file name without exactly the suffix
-            tdefs_ = [d for k, v in local_defs(ln.ast).items() for d in v if d is not None and isinstance(d, ast.Subscript) and src(d.value) == var]
             target = None
             for k, v in local_defs(ln.ast).items():
                 for d in v:
@@ -218,7 +216,6 @@ def check(ctx):
               Q + "._encode", "an encoded name (always ending in the image of the final newline) can end like a temporary suffix")
 
     # ---- who may mutate the directory ---------------------------------------------------------------------------
-    allowed = {"__init__", "__setitem__", "__delitem__", "_writeFile", "copyTo", "clear", "update", "setdefault"}
     nsites = 0
     for name, m in methods(cls).items():
         for c in ast.walk(m):
